@@ -46,6 +46,7 @@ def run(ctx):
     tr.d4_nan(ctx, DRV)
     from .common import settings_wiring
     settings_wiring(ctx, "D1/T5-settings-wiring", ES)
+    boundary_labels(ctx, "D1/T6-boundary-labels-recognised", ES, "solve_trust_region_minimization")
     ctx.trust("IEEE-754: every ordered comparison with a NaN operand is false")
     ctx.trust("rho = N/M >= c >= 0 with M >= 0 implies N >= 0 (M = 0 gives +-inf or NaN; -inf and NaN fail rho >= c)")
     ctx.assume("default mode (settings.use_incremental_objective is False) for the descent clause, as in the property text")
@@ -103,12 +104,61 @@ def d1_objective_methods(ctx):
                        bad_detail=f"self.{a} = {src(st.value)}; expected {want[a]} (value and gradient of the same function w.r.t. x)")
 
 
+def boundary_labels(ctx, rule, module, producer):
+    """The trust-region radius is enlarged only after steps that `is_on_boundary` recognises.  The step-type labels are produced by
+    the inner solver: every label it attaches to a step that was projected onto the trust-region boundary must be recognised, and
+    no label of an interior step may be (otherwise the radius never grows / grows on interior steps and a convex problem far from
+    the start is not solved within the iteration budget)."""
+    from optilint.cfg import cfg_of
+    from .common import expand, src
+    prod = ctx.need(f"{module}:{producer}")
+    cons = ctx.need(f"{module}:is_on_boundary")
+    cfg = cfg_of(prod)
+    on_b, interior = set(), set()
+    for r in cfg.returns():
+        v = r.ast.value
+        if not isinstance(v, ast.Tuple) or len(v.elts) < 2:
+            continue
+        labels = [e.id for e in v.elts if isinstance(e, ast.Name) and e.id in prod.module.scope.bindings
+                  and isinstance(getattr(prod.module.scope.bindings[e.id][-1], "value", None), ast.Constant)
+                  and isinstance(prod.module.scope.bindings[e.id][-1].value.value, str)]
+        if not labels:
+            continue
+        first = v.elts[0]
+        pe = expand(cfg, r, first, depth=1) if isinstance(first, ast.Name) else first
+        projected = isinstance(pe, ast.Call) and "project" in (dotted(pe.func) or "") and "boundary" in (dotted(pe.func) or "")
+        (on_b if projected else interior).add(labels[0])
+    rets = cons.returns()
+    recog = set()
+    shape_ok = len(rets) == 1
+    if shape_ok:
+        par = cons.params()[0]
+        terms = rets[0].values if isinstance(rets[0], ast.BoolOp) and isinstance(rets[0].op, ast.Or) else [rets[0]]
+        for t in terms:
+            if isinstance(t, ast.Compare) and len(t.ops) == 1 and isinstance(t.ops[0], ast.Eq) and isinstance(t.left, ast.Name) and t.left.id == par \
+                    and isinstance(t.comparators[0], ast.Name):
+                recog.add(t.comparators[0].id)
+            else:
+                shape_ok = False
+    if not on_b:
+        ctx.undecided(rule, prod, None, construct="producer-labels", detail="no labelled boundary exits found in the inner solver")
+        return
+    ok = shape_ok and recog == on_b and not (recog & interior)
+    ctx.decide(rule, ok, cons, rets[0] if rets else None, construct=f"{module.split('.')[-1]}:is_on_boundary=={sorted(on_b)}",
+               detail=f"boundary exits are labelled {sorted(on_b)}, interior exits {sorted(interior)}; is_on_boundary recognises {sorted(recog)}",
+               bad_detail=f"{producer} labels its boundary-projected steps {sorted(on_b)} (interior: {sorted(interior)}) but is_on_boundary recognises "
+                          f"{sorted(recog)}: the trust region is not enlarged after {sorted(on_b - recog) or 'some'} steps, so a convex problem whose minimiser is far "
+                          f"from the start is not reached within the iteration budget")
+
+
 def variants(repo):
     from optilint.selftest import Variant, sub, sub_in_func, alpha_rename, reformat, commute
     E = "optimism/EquationSolver.py"
     O = "optimism/Objective.py"
     T = "trust_region_minimize"
     return [
+        Variant("is_on_boundary forgets plain boundary steps", E, sub("    return stepType==boundaryString or stepType==negCurveString", "    return stepType==negCurveString"), "D1/T6-boundary-labels-recognised"),
+        Variant("is_on_boundary accepts interior steps", E, sub("    return stepType==boundaryString or stepType==negCurveString", "    return stepType==boundaryString or stepType==negCurveString or stepType==interiorString"), "D1/T6-boundary-labels-recognised"),
         Variant("settings eta2/eta3 swapped", E, sub("    return Settings(t1, t2, eta1, eta2, eta3,", "    return Settings(t1, t2, eta1, eta3, eta2,"), "D1/T5-settings-wiring"),
         Variant("True at the small-radius exit", E,
                 sub_in_func(T, "                    if callback: callback(x, objective)\n                    return x, False",
